@@ -167,7 +167,7 @@ func c02(r *core.Run) {
 
 func c04(r *core.Run) {
 	r.Explanation = "Decided clauses: (R1) every resource-kinded path of the three container Transfer methods and every returning path of the three Destroy methods calls InvalidateReferencedResources(context, v); " +
-		"(R2) InvalidateReferencedResources is the only writer of a nil Value into tracked ephemeral references and iterates the whole tracked set; the use check CheckInvalidatedValueOrValueReference keeps its reviewed interpreter call sites and " +
+		"(R2) InvalidateReferencedResources is the only writer of a nil Value into tracked ephemeral references, iterates the whole tracked set, and its nested walk hands every field / dictionary value / array element / optional payload to the recursive call unconditionally; the use check CheckInvalidatedValueOrValueReference keeps its reviewed interpreter call sites and " +
 		"the VM reads its operand stack only through accessors that run the check; (R3) StorageReferenceValue.dereference type-checks the referenced value before every non-nil return."
 	r.NotDecided = "that invalidation reaches unloaded nested values; behaviour per program."
 	transferMoveProtocol(r, "R1.invalidate", true, false)
@@ -219,6 +219,58 @@ func c04(r *core.Run) {
 		})
 	}
 	r.Floor("R2.writer", 1)
+	// R2w: the nested walk is unconditional — every iteration callback of InvalidateReferencedResources hands each child to the
+	// recursive call on every path (a child that is skipped by a type test, e.g. an optional wrapping a resource, keeps its references alive)
+	if inv := mustFn(r, "R2.walk", "interpreter", "", "InvalidateReferencedResources"); inv != nil {
+		isSelf := func(in ssa.Instruction) bool {
+			c, ok := in.(ssa.CallInstruction)
+			return ok && core.StaticFn(c) == inv
+		}
+		nclos := 0
+		for _, af := range inv.AnonFuncs {
+			var rec []ssa.CallInstruction
+			for _, c := range core.Calls(af, false) {
+				if isSelf(c) {
+					rec = append(rec, c)
+				}
+			}
+			if len(rec) == 0 {
+				continue
+			}
+			nclos++
+			ok, why := true, ""
+			for _, ret := range core.Returns(af) {
+				if !core.MustPass(ret, isSelf) {
+					ok, why = false, "the iteration callback can return without invalidating the child it was given (the recursive call is conditional)"
+				}
+			}
+			// the child handed over is a parameter of the callback
+			isChild := false
+			for _, c := range rec {
+				for _, a := range c.Common().Args {
+					for _, p := range af.Params {
+						if core.IsParamValue(a, p) {
+							isChild = true
+						}
+					}
+				}
+			}
+			if ok && !isChild {
+				ok, why = false, "the recursive call is not applied to the child handed to the callback"
+			}
+			r.Check(ok, "R2.walk", core.SSAKey(af)+": child -> InvalidateReferencedResources", af.Pos(), "every child is invalidated on every path of the callback", why)
+		}
+		direct := 0
+		for _, c := range core.Calls(inv, false) {
+			if isSelf(c) {
+				direct++
+			}
+		}
+		r.Check(nclos >= 3 && direct >= 1, "R2.walk", "interpreter.InvalidateReferencedResources: nested walk", inv.Pos(),
+			"fields, dictionary values, array elements (callbacks) and optionals (direct) are walked",
+			"the nested walk lost a container kind: "+itoa(nclos)+" iteration callbacks (expected 3: composite fields, dictionary values, array elements) and "+itoa(direct)+" direct recursion(s) (expected ≥1: optional)")
+	}
+	r.Floor("R2.walk", 4)
 	// R2b census of the use check
 	isUseCheck := func(o *types.Func) bool {
 		return o != nil && (o.Name() == "CheckInvalidatedValueOrValueReference" || o.Name() == "checkInvalidatedResourceOrResourceReference")
